@@ -306,6 +306,15 @@ def handle : List String → String
         | some none => "-"
         | some (some k) => s!"k{hexOfBytes k}"))
     | _, _ => "bad-op"
+  | ["kblk", h, bl, ks, probes] =>
+    match bytesOfHex h, bl.toNat?, keyList ks, keyList probes with
+    | some bs, some bl, some ks, some probes =>
+      let d := build bl (ks.map (fun k => (k, 0)))
+      let f := openFile bs
+      ";".intercalate (probes.map (fun k => match fileBlockForKey d.locateKey f k with
+        | none => "-"
+        | some a => s!"{a.firstOrd}:{a.start}:{a.stop}"))
+    | _, _, _, _ => "bad-op"
   | ["bitpack", vs, ws] =>
     match valList vs, valList ws with
     | some vs, some ws => if vs.length = ws.length then hexOfBytes (bitPack (vs.zip ws)) else "bad-op"
